@@ -1,4 +1,5 @@
 """API-level checks (C04 C08 C09 C10 C11 C12 C14 C15 C19)."""
+import os
 import random
 
 from . import gen_client as GC
@@ -261,6 +262,8 @@ L2C_INV_PROPS = {"ShutdownIsFinal": "C15", "HeartbeatWhileReady": "C08"}
 
 
 def l2c_exhaustive(rep, name, over, timeout=2400):
+    if os.environ.get("VERIF_SKIP_EXHAUSTIVE"):     # exploratory seed sweeps only: the exhaustive runs do not depend on the seed
+        return None
     from . import p_l2c as L2C
     res = L2C.model_check(over, timeout=timeout)
     rep.add_tlc({"states": res["states"], "transitions": res["transitions"]})
@@ -296,6 +299,8 @@ def l2c_replay(rep, n, over=None, what="ClientImpl schedules replayed into the r
 def l2c_sensitivity(rep, flag, over, expect_inv, timeout=1200):
     """Vacuity guard: with the modelled repair switched off the model must break the invariant, otherwise
     the exhaustive run above would not be exercising the property (reported as a machinery failure)."""
+    if os.environ.get("VERIF_SKIP_EXHAUSTIVE"):     # exploratory seed sweeps only: the exhaustive runs do not depend on the seed
+        return None
     from . import p_l2c as L2C
     o = dict(over)
     o[flag] = "FALSE"
